@@ -155,6 +155,7 @@ type Runner struct {
 	nev     int
 	lastMsg string
 	xqs     [][]Cmp
+	lastArg map[int]sod.Object
 	recs    []Vals
 	recIdx  map[string]int
 }
@@ -328,7 +329,7 @@ func RunTest(t *Test, out *json.Encoder, workdir string) {
 	}
 	defer os.RemoveAll(root)
 	r := &Runner{t: t, cfg: t.Cfg, root: root, out: out, slots: map[int]string{}, rev: map[string]int{},
-		seen: map[string]bool{}, used: map[string]map[int]bool{}, qf: t.Fields}
+		seen: map[string]bool{}, used: map[string]map[int]bool{}, qf: t.Fields, lastArg: map[int]sod.Object{}}
 	hookLog = hookLog[:0]
 	r.ghost = append(r.ghost, uuid.NewString())
 	r.emit(ev{"ev": "reset", "id": t.ID})
@@ -404,6 +405,8 @@ func (r *Runner) step(op *Op) {
 		r.collect(op)
 	case "mutate":
 		r.mutate(op)
+	case "args":
+		r.args(op)
 	case "flush":
 		r.flush(op)
 	default:
@@ -417,6 +420,7 @@ func (r *Runner) put(op *Op) {
 	rec := asRec(o)
 	err := r.db.InsertOrUpdate(o)
 	c := classify(err)
+	r.lastArg[op.Slot] = o
 	isNew, kept, fresh := r.uuidFacts(op.Slot, o, before)
 	e := ev{"ev": "put", "slot": op.Slot, "o": in, "after": r.project(o), "c": c, "new": isNew, "kept": kept, "fresh": fresh,
 		"hooks": r.takeHooks(map[*Rec]int{rec: 1})}
@@ -498,6 +502,7 @@ func (r *Runner) many(op *Op) {
 		if op.Batch[i].Other {
 			continue
 		}
+		r.lastArg[op.Batch[i].Slot] = o
 		isNew, kept, fresh := r.uuidFacts(op.Batch[i].Slot, o, befores[i])
 		ents[i]["after"] = r.project(o)
 		ents[i]["new"], ents[i]["kept"], ents[i]["fresh"] = isNew, kept, fresh
@@ -693,10 +698,7 @@ func (r *Runner) collect(op *Op) {
 	r.emit(e)
 }
 
-func (r *Runner) mutate(op *Op) {
-	// placeholder; implemented in isolate.go
-	r.mutateImpl(op)
-}
+func (r *Runner) mutate(op *Op) { r.mutateImpl(op) }
 
 // probesFor lists the probe codes of a field: every used code and its neighbours.
 func (r *Runner) probesFor(f string) []int {
